@@ -157,7 +157,8 @@ def non_ascii_query(q):
 
 
 class World:
-    def __init__(self):
+    def __init__(self, kind='ctor'):
+        self.kind = kind
         from prometheus_client import CollectorRegistry, Counter, Gauge, Histogram, Info, Summary
         from prometheus_client.metrics_core import Metric
         self.Metric, self.CollectorRegistry = Metric, CollectorRegistry
@@ -180,7 +181,8 @@ class World:
                 rr.collect = collect
                 return rr
         self.collects = 0
-        self.reg = CountingRegistry()
+        # target_info: given to the constructor, or set on the registry afterwards (`later`); it is part of the registry's content
+        self.reg = CountingRegistry(target_info={'env': 'prod', 'zone': 'eu-1'}) if kind == 'ctor' else CountingRegistry()
         c = Counter('reqs', 'requests served', ['code'], registry=self.reg)
         c.labels('200').inc(3); c.labels('500').inc()
         Gauge('temp_celsius', 'a gauge with a unit', unit='celsius', registry=self.reg).set(21.5)
@@ -191,6 +193,8 @@ class World:
         Gauge('a,b', 'a UTF-8 metric name that contains a comma', registry=self.reg).set(7)
         Summary('dur\u00e9e', 'a non-ASCII UTF-8 metric name', registry=self.reg).observe(1.5)
         Info('build', 'build info', registry=self.reg).info({'version': '1'})
+        if kind != 'ctor':
+            self.reg.set_target_info({'env': 'prod', 'zone': 'eu-1'})
         self.enc = {'text': exposition.generate_latest, 'om': om.generate_latest}
         self.exposition = exposition
         self.cache = {}
@@ -199,6 +203,11 @@ class World:
         self.wsgi = {d: exposition.make_wsgi_app(self.reg, disable_compression=d) for d in (False, True)}
         self.asgi = {d: make_asgi_app(self.reg, disable_compression=d) for d in (False, True)}
         self.hcls = exposition.MetricsHandler.factory(self.reg)
+
+    def retarget(self, labels):
+        """change the registry's content between scrapes; everything expected is recomputed from the new content"""
+        self.reg.set_target_info(labels)
+        self.cache, self.families = {}, None
 
     def expo_lib(self, fmt, names):
         """T2 only: what the model's opaque `expo f names` stands for — encoder_f(registry.restricted_registry(names))"""
@@ -432,7 +441,7 @@ def gen_malformed(rng, lit):
 
 NAME_KEYS = ['name[]', 'name[]', 'name%5B%5D', 'name%5b%5d', 'name[%5D', 'n%61me[]']
 OTHER_KEYS = ['foo', 'name', 'name[]x', 'xname[]', 'names[]', 'name%5B', 'NAME[]', 'name[][]', 'match[]']
-NAME_VALUES = ['dur%C3%A9e_count', 'dur%C3%A9e_sum', 'dur%C3%A9e', 'dur%c3%a9e_count', 'dur\xc3\xa9e_count', 'dur\xe9e_count', 'dur%E9e_count',
+NAME_VALUES = ['target_info', 'target_info', 'target_info', 'target', 'dur%C3%A9e_count', 'dur%C3%A9e_sum', 'dur%C3%A9e', 'dur%c3%a9e_count', 'dur\xc3\xa9e_count', 'dur\xe9e_count', 'dur%E9e_count',
                'a,b', 'a%2Cb', 'up,reqs_total', 'up%2Creqs_total', 'up,', ',up', 'a,b,up', 'a', 'reqs', 'reqs', 'lat_seconds', 'rt', 'build', 'rt_count', 'rt_sum', 'rt_created', 'lat_seconds_count', 'reqs', 'reqs_total', 'reqs_created', 'temp_celsius', 'lat_seconds', 'lat_seconds_bucket', 'lat_seconds_sum', 'up',
                'build_info', 'build', 'nonexistent', '', '', 'temp%5Fcelsius', 'u%70', 'a+b', '%C3%A9', 'up&', 'reqs%26up', 'up=1']
 
@@ -494,7 +503,13 @@ def corpus():
            c(q='name[]=a,b&name[]=up'), c(q='name[]=up,'), c(q='name[]=,'), c(q='name[]=a&name[]=b'),
            c(q='name[]=dur%C3%A9e_count'), c(q='name%5B%5D=dur%C3%A9e_sum&name[]=up', acc=[OM], ae=['gzip']), c(q='name[]=dur%C3%A9e'),
            c(q='name[]=dur\xc3\xa9e_count'), c(q='name[]=dur\xe9e_count'), c(q='name[]=dur%E9e_count'),
-           c(q='&&name[]=up&&'), c(q='=&==&name[]'), c(acc=[OM], q='a=1#name[]=up')]
+           c(q='&&name[]=up&&'), c(q='=&==&name[]'), c(acc=[OM], q='a=1#name[]=up'),
+           # target_info: alone, mixed, as the family name `target` (not a sample name), three scrapes in a row
+           c(q='name[]=target_info', repeat=3), c(q='name[]=target_info&name[]=up', repeat=3), c(q='name[]=target'),
+           c(q='name%5B%5D=target_info&name[]=reqs_total', acc=[OM], ae=['gzip'], repeat=3), c(q='name[]=up&name[]=target_info'),
+           # interleaved selections against the same objects: A B A B B A, one scrape each
+           c(q='name[]=target_info&name[]=rt_sum', repeat=1), c(q='name[]=up', repeat=1), c(q='name[]=target_info&name[]=rt_sum', repeat=1),
+           c(q='name[]=up', repeat=1), c(q='name[]=up', repeat=1), c(q='name[]=target_info&name[]=rt_sum', repeat=1), c(repeat=3)]
     out = [wire_case(x) for x in out]
     for m in METHODS:
         out.append(c(method=m, acc=[OM], ae=['gzip'], q='name[]=up'))
@@ -517,7 +532,7 @@ def gen_case(rng):
                 acc=hdr(TOKENS_ACCEPT, OM), ae=hdr(TOKENS_CODING, 'gzip'),
                 an=rng.choice(['Accept', 'Accept', 'accept', 'ACCEPT', 'aCCept']),
                 aen=rng.choice(['Accept-Encoding', 'accept-encoding', 'ACCEPT-ENCODING', 'Accept-encoding']),
-                others=others, q=gen_query(rng)), rng)
+                others=others, q=gen_query(rng), repeat=rng.choice([1, 2, 2, 2, 3])), rng)
 
 
 # ------------------------------------------------------------------------------------------------ evaluation
@@ -732,7 +747,19 @@ def has_high_bytes(case):
 
 
 def eval_case(world, case):
-    """runs the real front-ends on one case; returns (results, failures, notes)"""
+    """issues the request `repeat` times in a row (default 2) against the SAME registry, app and handler objects; every
+    response is judged by the same oracle — the answer is a function of the request and of the registry's current content,
+    not of earlier scrapes.  Returns (results of the last scrape, all failures, notes of the last scrape)."""
+    n = max(1, int(case.get('repeat', 2)))
+    out, fails = None, []
+    for k in range(n):
+        res, fs, notes = eval_once(world, case)
+        fails += [(s, w + ('' if k == 0 else ' [scrape %d of %d identical requests in a row]' % (k + 1, n))) for s, w in fs]
+        out = (res, notes)
+    return out[0], fails, out[1]
+
+
+def eval_once(world, case):
     res, fails, notes = {}, [], []
     acc_join = None if case['acc'] is None else ','.join(case['acc'])
     ae_join = None if case['ae'] is None else ','.join(case['ae'])
@@ -796,13 +823,24 @@ def cls_of(case):
                                           int(want_gzip(None if case['ae'] is None else ','.join(case['ae']))), min(len(names), 3))
 
 
+def fresh_fails(kind, c, sig):
+    """does the request sequence of `c` alone (plus its recorded history, if any) fail with `sig` on a FRESH registry/app/handler?"""
+    try:
+        w = World(kind)
+        for h in c.get('history', []):
+            eval_case(w, h)
+        return [wt for s, wt in eval_case(w, c)[1] if s == sig]
+    except Exception:
+        return []
+
+
 def shrink(world, case, sig):
     def still(c):
-        try:
-            return any(s == sig for s, _ in eval_case(world, c)[1])
-        except Exception:
-            return False
+        return bool(fresh_fails(world.kind, c, sig))
     cur = dict(case)
+    if cur.get('repeat', 2) > 2:
+        cand = dict(cur, repeat=2)
+        if still(cand): cur = cand
     for key, val in (('others', []), ('ae', None), ('acc', None), ('q', ''), ('path', '/metrics'), ('an', 'Accept'),
                      ('aen', 'Accept-Encoding')):
         cand = dict(cur); cand[key] = val
@@ -830,8 +868,11 @@ def run_cases(ctx, world, cases, verbose=False):
     replies = ctx.driver.run(lines)
     seen_sigs = set()
     per_sig = {}
+    history = []
     for i, case in enumerate(cases):
         res, fails, notes = eval_case(world, case)
+        history.append(case)
+        ctx.count('scrapes per request: %d' % max(1, int(case.get('repeat', 2))))
         key = json.dumps([case['method'], case['acc'], case['ae'], case['q'], case['path']], sort_keys=True)
         trivial = case['acc'] is None and case['ae'] is None and case['q'] == ''
         ctx.case(nontrivial_key=None if trivial else key,
@@ -844,12 +885,17 @@ def run_cases(ctx, world, cases, verbose=False):
         if (case['acc'] and len(case['acc']) > 1) or (case['ae'] and len(case['ae']) > 1):
             ctx.count('repeated-field-lines (correspondence only)')
         for sig, what in fails:
-            c = case
+            c = dict(case, world=world.kind, repeat=max(2, int(case.get('repeat', 2))))
             if sig not in seen_sigs:
                 seen_sigs.add(sig)
-                c = shrink(world, case, sig)
-                again = [w for s, w in eval_case(world, c)[1] if s == sig]
-                what = again[0] if again else what
+                if fresh_fails(world.kind, c, sig):
+                    c = shrink(world, c, sig)
+                else:
+                    # the failure depends on earlier scrapes of OTHER requests against the same objects: keep them
+                    c = dict(c, history=[dict(h) for h in history[-60:-1]])
+                    ctx.count('failure needs the preceding requests (history kept in the replay)')
+                again = fresh_fails(world.kind, c, sig)
+                what = again[-1] if again else what
             if sig == SIG_HDRBYTES:
                 what = ('ASGI app raises UnicodeDecodeError on a GET whose header fields %r carry bytes >= 0x80 (it must decode header '
                         'bytes as latin-1 like wsgiref and http.server, which answer 200)' % (
@@ -978,7 +1024,8 @@ def run(ctx):
                 'spellings × unrelated/near-miss header fields (all header bytes put on the wire as UTF-8 or latin-1, so bytes >= 0x80 occur) × '
                 'query strings (0..5 pieces: name[] literal or percent-encoded, blank values, unrelated and near-miss keys, malformed '
                 "pieces, raw '#', '?', ';', '&&', '=' oddities) × disable_compression; each request drives WSGI, ASGI and "
-                'MetricsHandler; non-trivial = has an Accept, an Accept-Encoding or a query string; distinct by request content')
+                'MetricsHandler, 1-3 times in a row and interleaved with other selections against the same registry (constructed with '
+                'target_info, or target_info set later / changed / removed between scrapes), app and handler objects; non-trivial = has an Accept, an Accept-Encoding or a query string; distinct by request content')
     check_interpreter_facts()
     world = World()
     n = 2500 if ctx.tier == 'quick' else 40000
@@ -986,6 +1033,18 @@ def run(ctx):
         n *= 3
     cases = corpus() + [gen_case(ctx.rng) for _ in range(n)]
     run_cases(ctx, world, cases)
+    # a registry whose target_info is set after construction, then CHANGED and REMOVED between scrapes: every expected body is
+    # recomputed from the registry's current content
+    later = World('later')
+    m = 250 if ctx.tier == 'quick' else 3000
+    extra = [gen_case(ctx.rng) for _ in range(m)]
+    for c in extra:
+        c['method'] = 'GET'
+    run_cases(ctx, later, corpus() + extra[:m // 2])
+    later.retarget({'env': 'staging'})
+    run_cases(ctx, later, corpus()[:60] + extra[m // 2:])
+    later.retarget(None)
+    run_cases(ctx, later, [dict(c) for c in corpus() if 'target' in c['q']])
     run_functions(ctx, world, ctx.rng, 300 if ctx.tier == 'quick' else 4000)
     if ctx.tier == 'thorough':
         loopback_handler_check(ctx, world, cases, 600)
@@ -1012,7 +1071,9 @@ def run(ctx):
 def replay(ctx, case):
     c = case.get('case', case)
     check_interpreter_facts()
-    world = World()
+    world = World(c.get('world', 'ctor'))
+    for h in c.get('history', []):          # earlier requests against the same registry/app/handler objects
+        eval_case(world, h)
     if 'fn' in c:
         h = c['h']
         print('choose_encoder ->', world.exposition.choose_encoder(h)[1], '| gzip_accepted ->', world.exposition.gzip_accepted(h),
@@ -1020,7 +1081,8 @@ def replay(ctx, case):
         bad = (world.exposition.choose_encoder(h)[1] != CT[want_format(h)]) if c['fn'] == 'choose' else (
             bool(world.exposition.gzip_accepted(h)) != want_gzip(h)) if c['fn'] == 'gzip' else False
         return 1 if bad else 0
-    print('request:', json.dumps(c, ensure_ascii=True))
+    print('request (issued %d time(s) in a row against one registry/app/handler, after %d earlier request(s)):' % (
+        max(1, int(c.get('repeat', 2))), len(c.get('history', []))), json.dumps({k: v for k, v in c.items() if k != 'history'}, ensure_ascii=True))
     res, fails, notes = eval_case(world, c)
     for (fe, d), r in sorted(res.items(), key=lambda kv: (kv[0][0], kv[0][1])):
         if 'error' in r:
